@@ -40,8 +40,8 @@ func c12Types() []c12Type {
 		{Leaf: "u16", Kind: "uint", Values: []string{"65535"}},
 		{Leaf: "u32", Kind: "uint", Values: []string{"4294967295"}},
 		{Leaf: "u64", Kind: "uint", Values: []string{"0", "9223372036854775807", "9223372036854775808", "18446744073709551615"}},
-		{Leaf: "d1", Kind: "decimal", Prec: 1, Values: []string{"1.5", "-2.5", "0.1", "3"}},
-		{Leaf: "d2", Kind: "decimal", Prec: 2, Values: []string{"3.14", "-0.05", "100", "0.5"}},
+		{Leaf: "d1", Kind: "decimal", Prec: 1, Values: []string{"1.5", "-2.5", "0.1", "3", "15", "-0.5"}}, // 1.5 / 15: same digits, the point elsewhere; -0.5: sign with a zero integer part
+		{Leaf: "d2", Kind: "decimal", Prec: 2, Values: []string{"3.14", "-0.05", "100", "0.5", "5", "0.05"}},
 		{Leaf: "d18", Kind: "decimal", Prec: 18, Values: []string{"0.000000000000000001", "-9.223372036854775808", "1.5"}},
 		{Leaf: "bo", Kind: "bool", Values: []string{"true", "false"}},
 		{Leaf: "em", Kind: "empty", Values: []string{"<empty>"}},
